@@ -1,9 +1,154 @@
+import SwayVerif.Model.StdSpec
 import SwayVerif.Driver.Util
-/-! Driver for C27 (stub — replace `answer`; keep `run`). -/
+/-!
+Driver for C27.
+  `num <op> <ty> <mode> <a> <b> ;; ok <hex bytes> | revert <code>`
+  `col <kind> <op>... ;; ok <obs>... | revert <code> <obs>...`
+agree = the TRANSCRIPTION (`StdNum` / `StdVec` machine) gives the VM's result;
+prop  = the REFERENCE (`refNum`: Nat arithmetic / `specRun`: List) gives the VM's result, reverts exactly
+        when documented.
+-/
 namespace SwayVerif.Driver.C27
-open SwayVerif.Driver
+open SwayVerif.Driver SwayVerif.StdSpec SwayVerif.StdVec SwayVerif.Word
 
-def answer (_line : String) : String := "unimplemented agree=0 prop=0"
+def parseTy : String → Option Ty
+  | "u8" => some .u8 | "u16" => some .u16 | "u32" => some .u32 | "u64" => some .u64
+  | "u128" => some .u128 | "u256" => some .u256 | _ => none
+
+def parseOp : String → Option NumOp
+  | "add" => some .add | "sub" => some .sub | "mul" => some .mul | "div" => some .div | "mod" => some .mod
+  | "wadd" => some .wadd | "wsub" => some .wsub | "wmul" => some .wmul
+  | "pow" => some .pow | "sqrt" => some .sqrt | "log" => some .log | "log2" => some .log2
+  | "lsh" => some .lsh | "rsh" => some .rsh | "cmp" => some .cmp | "oadd" => some .oadd | "omul" => some .omul
+  | "try8" => some (.tryFrom .u8) | "try16" => some (.tryFrom .u16) | "try32" => some (.tryFrom .u32)
+  | "try64" => some (.tryFrom .u64)
+  | "tas8" => some (.tryAs .u8) | "tas16" => some (.tryAs .u16) | "tas32" => some (.tryAs .u32)
+  | _ => none
+
+def pad (n : Nat) (s : String) : String := String.ofList (List.replicate (n - s.length) '0') ++ s
+
+def hexOfPieces (ps : List Piece) : String :=
+  if ps.isEmpty then "-" else String.join (ps.map fun (w, v) => pad (2 * w) (hexOfNat v))
+
+/-- split a hex string into pieces of the given byte widths -/
+def piecesOfHex (widths : List Nat) (s : String) : Option (List Piece) :=
+  let rec go : List Nat → List Char → Option (List Piece)
+    | [], [] => some []
+    | [], _ => none
+    | w :: ws, cs =>
+      if cs.length < 2 * w then none
+      else match parseHex? (String.ofList (cs.take (2 * w))), go ws (cs.drop (2 * w)) with
+        | some v, some r => some ((w, v) :: r)
+        | _, _ => none
+  go widths (if s = "-" then [] else s.toList)
+
+def showRes (r : Res (List Piece)) : String :=
+  match r with
+  | .ok ps => s!"ok {hexOfPieces ps}"
+  | .revert c => s!"revert {c}"
+  | .panic _ => "revert 0"
+  | .fuel => "fuel"
+
+/-- byte widths of what a case logs, given the total length (Option results log 1 or 2 values) -/
+def widthsFor (op : NumOp) (t : Ty) (hexLen : Nat) : List Nat :=
+  match op with
+  | .tryFrom tt | .tryAs tt => if hexLen = 16 then [8] else [8, tt.bytes]
+  | .cmp => [8]
+  | .oadd | .omul => [8, 8]
+  | _ => if t = .u128 then [8, 8] else [t.bytes]
+
+def whyNum (op : NumOp) (t : Ty) (fl : Flags) (a b : Nat) : String :=
+  match refNum op t fl a b with
+  | none => "unspecified"
+  | some none => "revert"
+  | some (some _) => if op = .log ∧ (t = .u128 ∨ t = .u256) then "value-log-wide" else "value"
+
+def answerNum (c i : List String) : String :=
+  match c, i with
+  | [ops, tys, ms, as, bs], ih :: irest =>
+    match parseOp ops, parseTy tys, ms.toNat?, parseHex? as, parseHex? bs with
+    | some op, some t, some m, some a, some b =>
+      let fl := flagsOfMode m
+      let impl : Option ImplNum := match ih, irest with
+        | "ok", [h] => (piecesOfHex (widthsFor op t (if h = "-" then 0 else h.length)) h).map ImplNum.ok
+        | "revert", [cd] => cd.toNat?.map ImplNum.revert
+        | _, _ => none
+      match runNum op t fl a b, impl with
+      | some mr, some ir =>
+        let agree := agreeNum mr ir
+        let prop := propNum op t fl a b ir
+        let kind := match ir with | .ok _ => "ok" | .revert _ => "revert"
+        s!"{showRes mr} agree={b01 agree} prop={b01 prop} op={ops}.{tys} mode={m} spec={whyNum op t fl a b} out={kind}"
+      | none, _ => "bad-op-for-type agree=0 prop=0"
+      | _, none => "bad-impl agree=0 prop=0"
+    | _, _, _, _, _ => "bad-case agree=0 prop=0"
+  | _, _ => "bad-line agree=0 prop=0"
+
+def hexList? (s : String) : Option (List Nat) :=
+  if s = "-" then some [] else
+  (s.splitOn ",").foldr (fun t acc => match acc, parseHex? t with
+    | some l, some n => some (n :: l)
+    | _, _ => none) (some [])
+
+def parseColOp (s : String) : Option Op :=
+  match s.splitOn ":" with
+  | ["push", x] => (parseHex? x).map .push
+  | ["pop"] => some .pop
+  | ["get", i] => (parseHex? i).map .get
+  | ["set", i, x] => do let i ← parseHex? i; let x ← parseHex? x; pure (.set i x)
+  | ["insert", i, x] => do let i ← parseHex? i; let x ← parseHex? x; pure (.insert i x)
+  | ["remove", i] => (parseHex? i).map .remove
+  | ["swap", i, j] => do let i ← parseHex? i; let j ← parseHex? j; pure (.swap i j)
+  | ["clear"] => some .clear
+  | ["len"] => some .len
+  | ["isempty"] => some .isEmpty
+  | ["last"] => some .last
+  | ["resize", n, x] => do let n ← parseHex? n; let x ← parseHex? x; pure (.resize n x)
+  | ["iter"] => some .iter
+  | ["append", xs] => (hexList? xs).map .append
+  | ["splitat", m] => (parseHex? m).map .splitAt
+  | ["str", xs] => (hexList? xs).map .fromSlice
+  | _ => none
+
+def answerCol (c i : List String) : String :=
+  match c with
+  | kind :: opToks =>
+    -- first token of vec/bytes is the constructor
+    let (v0, opToks) : Option Vec × List String := match kind, opToks with
+      | "string", ts => (some Vec.new, ts)
+      | _, "new" :: ts => (some Vec.new, ts)
+      | _, t :: ts => (match t.splitOn ":" with
+          | ["cap", n] => (parseHex? n).map Vec.withCapacity
+          | _ => none, ts)
+      | _, [] => (none, [])
+    let ops := opToks.foldr (fun t acc => match acc, parseColOp t with
+      | some l, some o => some (o :: l)
+      | _, _ => none) (some [])
+    let impl : Option ImplCol := match i with
+      | "ok" :: obs => (obs.foldr (fun t acc => match acc, parseHex? t with
+          | some l, some n => some (n :: l) | _, _ => none) (some [])).map fun o => ⟨o, none⟩
+      | "revert" :: cd :: obs => match cd.toNat?, (obs.foldr (fun t acc => match acc, parseHex? t with
+          | some l, some n => some (n :: l) | _, _ => none) (some [])) with
+        | some c, some o => some ⟨o, some c⟩
+        | _, _ => none
+      | _ => none
+    match v0, ops, impl with
+    | some v0, some ops, some ir =>
+      let m := run v0 ops
+      let agree := agreeCol m ir
+      let prop := propCol [] ops ir
+      let mrev := match m.2 with | none => "ok" | some _ => "revert"
+      let sz := if ops.length < 6 then "short" else if ops.length < 14 then "mid" else "long"
+      s!"{mrev} obs={m.1.length} agree={b01 agree} prop={b01 prop} kind={kind} out={if ir.revert.isSome then "revert" else "ok"} size={sz}"
+    | _, _, _ => "bad-col-case agree=0 prop=0"
+  | [] => "bad-line agree=0 prop=0"
+
+def answer (line : String) : String :=
+  let (c, i) := splitCase line
+  match c with
+  | "num" :: rest => answerNum rest i
+  | "col" :: rest => answerCol rest i
+  | _ => "bad-line agree=0 prop=0"
 
 def run : IO Unit := do
   lineLoop (← IO.getStdin) (← IO.getStdout) answer
